@@ -8,6 +8,7 @@
               S<n>:P<ids>:D<ids>:R<ids>:G<ids> | D<id>=ok<payload>|err<e>|shut | PANIC       (ids "."-separated, "-" = none)
    stream <id> <guard 0|1> <events>      events = s<f>:<0|1> | r<payload> | e | x | c<f>  (c: the context of Send(f) is done)
           ->  PANIC, or per sent future (sorted by id, "," separated): <f>=ok<r>|errsend|eof|errctx|pending
+   merge | scan  <id> <chan>|<chan>|...   (scan: the same merge reached through clientImpl.RangeScan)
    merge  <id> <chan>|<chan>|...          chan = comma list of k<hexkey>:<payload> | E<e>      ("-" = empty channel)
           ->  the merged sequence in the same item syntax; runs of equal keys sorted by payload
    list   <id> <chan>|<chan>|...          -> sorted multiset of all items
@@ -153,7 +154,7 @@ let () = read_lines (fun line ->
         let l = List.sort (fun (a, _) (b, _) -> Z.compare a b) (List.map (fun f -> (z_of_n f, res f)) sent) in
         Printf.printf "%s %s\n" id (join_or_dash "," (List.map (fun (f, r) -> Z.to_string f ^ "=" ^ r) l))
       end
-    | ["merge"; id; chans] ->
+    | ["merge"; id; chans] | ["scan"; id; chans] ->
       let out = M.merge_slash (parse_chans chans) in
       Printf.printf "%s %s\n" id (join_or_dash "," (List.map string_of_item (canon_runs out)))
     | ["list"; id; chans] ->
@@ -190,6 +191,23 @@ let () = read_lines (fun line ->
           let o = run p in (List.length o, out @ [drop seen o])) (0, []) (prefixes [] arr) in
       Printf.printf "%s %s\n" id
         (join_or_dash ";" (List.map (fun o -> join_or_dash "," (List.map string_of_gobs o)) steps))
+    | ["wsend"; id; reqs] ->
+      (* one request per ";": its attempts joined by "+":  c<code> connection fails | s<code> stream.Send fails |
+         a<payload> sent and answered | f<code> sent, then the stream breaks with that status
+         -> per request: S for every stream.Send that returned nil, then ok<payload> | err<code> | erreof *)
+      let att s = match s.[0] with
+        | 'c' -> M.WConnFail (n_of_string (sub_from s 1))
+        | 's' -> M.WSendFail (n_of_string (sub_from s 1))
+        | 'a' -> M.WAnswered (n_of_string (sub_from s 1))
+        | _ -> M.WStreamFailed (n_of_string (sub_from s 1)) in
+      let one r =
+        let o = M.write_path true (List.map att (String.split_on_char '+' r)) in
+        join_or_dash "," (List.map (function
+            | M.WSent -> "S"
+            | M.WDone (M.WOk p) -> "ok" ^ string_of_n p
+            | M.WDone (M.WErrCode c) -> "err" ^ string_of_n c
+            | M.WDone M.WErrEOF -> "erreof") o) in
+      Printf.printf "%s %s\n" id (String.concat ";" (List.map one (String.split_on_char ';' reqs)))
     | [] | [""] -> ()
     | _ -> Printf.printf "?? bad line: %s\n" line
   with e -> Printf.printf "?? %s on line: %s\n" (Printexc.to_string e) line)
